@@ -15,6 +15,7 @@ import (
 	"github.com/llir/llvm/ir/constant"
 	"github.com/llir/llvm/ir/metadata"
 	"github.com/llir/llvm/ir/types"
+	"github.com/llir/llvm/ir/value"
 )
 
 func parseOutcome(text string) (m *ir.Module, outcome string) {
@@ -221,6 +222,77 @@ func (c *closure) descend(obj interface{}, path string, locals map[interface{}]b
 	c.walk(v, path, locals, 0)
 }
 
+// blockRefCheck: every `blockaddress(@f, %l)` the skeleton lists for a named global (its initialiser) or for a module-level
+// uselistorder must be the very *ir.Block that function @f lists under the label %l (pointer identity), and its Func the listed function.
+func blockRefCheck(m *ir.Module, sk string) string {
+	find := func(fn, label string) (*ir.Func, *ir.Block) {
+		for _, f := range m.Funcs {
+			if f.Name() == fn {
+				for _, b := range f.Blocks {
+					if b.Ident() == "%"+label {
+						return f, b
+					}
+				}
+				return f, nil
+			}
+		}
+		return nil, nil
+	}
+	check := func(where string, c constant.Constant, ref string) string {
+		ba, ok := c.(*constant.BlockAddress)
+		if !ok {
+			return fmt.Sprintf("FAIL %s: not a blockaddress constant (%T)", where, c)
+		}
+		p := strings.SplitN(ref, ":", 2)
+		f, b := find(p[0], p[1])
+		if f == nil || b == nil {
+			return fmt.Sprintf("FAIL %s: no block %%%s in @%s", where, p[1], p[0])
+		}
+		if ba.Func != constant.Constant(f) {
+			return fmt.Sprintf("FAIL %s: blockaddress function is not the listed @%s", where, p[0])
+		}
+		if ba.Block != value.Named(b) {
+			got := "?"
+			if bb, ok := ba.Block.(*ir.Block); ok {
+				got = bb.Ident()
+			}
+			return fmt.Sprintf("FAIL %s: blockaddress(@%s, %%%s) denotes block %s", where, p[0], p[1], got)
+		}
+		return ""
+	}
+	nUse := 0
+	for _, e := range strings.Split(sk, ";") {
+		f := strings.Split(e, "|")
+		if len(f) < 6 || strings.TrimSpace(f[5]) == "" {
+			continue
+		}
+		refs := strings.Fields(f[5])
+		switch f[0] {
+		case "G":
+			if f[1] == "#" {
+				continue
+			}
+			for _, g := range m.Globals {
+				if g.Name() == f[1] && g.Init != nil {
+					if r := check("@"+f[1], g.Init, refs[0]); r != "" {
+						return r
+					}
+				}
+			}
+		case "U":
+			if nUse < len(m.UseListOrders) {
+				if c, ok := m.UseListOrders[nUse].Value.(constant.Constant); ok {
+					if r := check(fmt.Sprintf("uselistorder[%d]", nUse), c, refs[0]); r != "" {
+						return r
+					}
+				}
+			}
+			nUse++
+		}
+	}
+	return "ok"
+}
+
 func closureCheck(m *ir.Module) string {
 	c := newClosure(m)
 	for _, t := range m.TypeDefs {
@@ -352,7 +424,13 @@ func init() {
 		if m == nil {
 			return "FAIL " + o
 		}
-		return closureCheck(m)
+		if r := closureCheck(m); r != "ok" {
+			return r
+		}
+		if a[0] != "-" {
+			return blockRefCheck(m, string(unhexArg(a[0])))
+		}
+		return "ok"
 	})
 	// C05: the documented exception must be accepted
 	reg("mod.accept", func(a []string) string {
